@@ -125,7 +125,7 @@ def decoder_inputs(ctx, rt, exhaustive_len=None, n_alive=None, n_uniform=None, m
     return cases
 
 
-def run_decoder_stream(ctx, rt, name, strings, table_name, table, flags="-", judge=None):
+def run_decoder_stream(ctx, rt, name, strings, table_name, table, flags="-", judge=None, op="dec"):
     """decoder correspondence on `strings` under `table`; `judge(s, wire_result)` evaluates the
     property predicate on the real result"""
     lines, expected = [], []
@@ -137,13 +137,18 @@ def run_decoder_stream(ctx, rt, name, strings, table_name, table, flags="-", jud
         if not sendable(s):
             continue
         r = impl.real_decoder(s, compat=compat, attribute=attrib)
-        lines.append("dec\t%s\t%s" % (flags, enc(s)))
-        expected.append(r)
+        lines.append("%s\t%s\t%s" % (op, flags, enc(s)))
+        expected.append(r if not (op == "specdec" and r == "err\tRecursionError") else None)
         idx.append(s)
         ctx.evaluations += 1
         if judge is not None:
-            judge(s, r, table_name, table)
-    bad = rt.corr("%s[%s,%s]" % (name, table_name, flags), lines, expected,
+            try:
+                judge(s, r, table_name, table)
+            except Exception as e:  # noqa  (the library raised inside the property predicate: a symptom, not an infrastructure error)
+                add_violation(ctx, ctx.prop + ":predicate-raised:" + type(e).__name__,
+                              "evaluating the property predicate on the real code raised " + type(e).__name__,
+                              input=s[:300], table=table, result=r[:200])
+    bad = rt.corr("%s%s[%s,%s]" % ("spec:" if op == "specdec" else "", name, table_name, flags), lines, expected,
                   show=lambda i: {"selfies": idx[i - 1] if i > 0 else None, "table": table_name, "flags": flags})
     return [idx[i - 1] for i in bad if i > 0]
 
@@ -223,6 +228,7 @@ def check_C02(ctx, rt):
             for ti, (tname, tab) in enumerate(use):
                 chunk = strings if per is None else strings[ti * per:(ti + 1) * per]
                 bad = run_decoder_stream(ctx, rt, cname, chunk, tname, tab, judge=judge)
+                bad += run_decoder_stream(ctx, rt, cname, chunk if len(chunk) < 30000 else chunk[::3], tname, tab, op="specdec")
                 for s in bad[:20]:
                     # a disagreement with the rendering of the grammar IS a C02 violation candidate;
                     # it is reported with the replay unless the graph-level re-check agrees
@@ -351,6 +357,22 @@ def check_C08(ctx, rt):
             if sf.get_semantic_constraints() != before:
                 add_violation(ctx, "C08:state", "decoder changed the constraint state", flags=flags)
         ctx.sample({"example": mal[7][:120]})
+        # the same call after other calls under other tables (the symbol memo must stay table-independent):
+        # decode under a permissive table, tighten the table, decode again; exception class vs the model
+        tdep = ["[SH5]", "[C][SH5]", "[CH3][C]", "[C][CH3]", "[NH4+1]", "[C][NH3][C]", "[PH4][F]", "[OH2]", "[C][OH1][C]",
+                "[SiH4]", "[C].[SH5][C]", "[C][Branch1][C][SH5][O]", "[BH3-1][C]", "[IH2][C]", "[FeH6][C]", "[C][ClH1]"]
+        tdep += gens.gen_uniform(rt.rng, tdep + ["[C]", "[=O]", "[N]", "[Branch1]", "[Ring1]"], rt.n(300, 5000), 6)
+        seq = [("relaxed", gens.relaxed_table(sf)), ("octet_rule", sf.get_preset_constraints("octet_rule")),
+               ("cap0", {"C": 0, "N": 0, "O": 2, "F": 1, "?": 0}), ("default", sf.get_preset_constraints("default")),
+               ("tight", {"C": 2, "N": 1, "O": 1, "S": 2, "P": 3, "?": 3}), ("hypervalent", sf.get_preset_constraints("hypervalent"))]
+        for tname, tab in seq:
+            def judge2(s, r, tn, tb):
+                if r.startswith("err\t") and r != "err\tDecoderError":
+                    add_violation(ctx, "C08:escape-after-table-change:" + r.split("\t")[1],
+                                  "an exception other than DecoderError escapes selfies.decoder after the table was changed",
+                                  selfies=s[:300], table=tb, error=r.split("\t")[1])
+            run_decoder_stream(ctx, rt, "table-sequence", tdep, tname, tab, judge=judge2)
+        restore_default()
         # deep nesting: RecursionError is the known family F2; anything else is reported
         for s, name in ((("[C][Branch3][P][P][P]" * 2000), "branch-nesting-2000"),):
             ctx.evaluations += 1
